@@ -9,6 +9,10 @@
 (* File content is abstracted to: "old", or a prefix of length n of the    *)
 (* new blob (n = BlobLen is the complete new content, 0 is empty).         *)
 (* Crash is enabled in every state.                                        *)
+(* Atomic is the mode in effect WHEN THE SAVE STARTS: the object's         *)
+(* write_concern or the class's threading support at that moment - not at  *)
+(* the time the object was created (the harness has scenarios that switch  *)
+(* the support on after construction).                                     *)
 (***************************************************************************)
 EXTENDS Integers, Sequences, TLC
 
